@@ -365,6 +365,13 @@ Definition g_fcprog (x : sexp) : option fcprog :=
   | _ => None
   end.
 
+(* ---------- normal form of a checked program ----------
+   Program::check() collects the monomorphic instances of the type declarations by iterating a
+   HashMap (symbol_table.types), so the ORDER of data_types / codata_types differs from one run of
+   the Rust code to the next.  Instance names are unique; sorting by name gives a canonical form. *)
+Definition norm_fcprog (p : fcprog) : fcprog :=
+  mkfcprog (sort_by fdaname (fcpdata p)) (sort_by fcoaname (fcpcodata p)) (fcpdefs p).
+
 (* ---------- size: number of term and clause nodes (types, contexts, names count 0); a def counts
    1 + its body; a program is the sum of its defs (type declarations count 0) ---------- *)
 Local Open Scope N_scope.
